@@ -1,6 +1,8 @@
 // h_C19.cpp — harness for C19: directional_statistics::directional_add / _sub / _mean.
 // kinds: add, sub  operands a (r x c), b (r x 1), a2, b2 (same shapes: entries shifted by multiples of 2 pi)
 //        mean      operands a (r x c), w (c x 1), a2 (2 pi shifts), a3 (= a + delta, common rotation)
+// Every call is made twice: with plain matrices and with expression arguments as the library's own callers
+// pass them (M.bottomRows(k), M.col(j), M.transpose()); `via_equal` reports whether the results are bit-identical.
 #define VF_MAIN
 #include "common.hpp"
 #include <BayesFilters/directional_statistics.h>
@@ -8,38 +10,77 @@
 using namespace bfl;
 using namespace Eigen;
 
+// a embedded under two junk rows, b / w embedded between two junk columns
+static MatrixXd under_junk(const MatrixXd& a) {
+    MatrixXd big(a.rows() + 2, a.cols());
+    big.topRows(2).setConstant(123.456);
+    big.bottomRows(a.rows()) = a;
+    return big;
+}
+static MatrixXd between_junk(const VectorXd& v) {
+    MatrixXd B(v.rows(), 3);
+    B.col(0).setConstant(-77.0); B.col(1) = v; B.col(2).setConstant(55.5);
+    return B;
+}
+
+static MatrixXd call_addsub(bool add, const MatrixXd& a, const VectorXd& b, bool& via_equal) {
+    MatrixXd res;
+    if (add) { vf::Entry e("directional_statistics::directional_add"); res = directional_statistics::directional_add(a, b); }
+    else     { vf::Entry e("directional_statistics::directional_sub"); res = directional_statistics::directional_sub(a, b); }
+    const MatrixXd big = under_junk(a), B = between_junk(b), at = a.transpose();
+    MatrixXd r1, r2;
+    if (add) {
+        vf::Entry e("directional_statistics::directional_add[expression arguments]");
+        r1 = directional_statistics::directional_add(big.bottomRows(a.rows()), B.col(1));
+        r2 = directional_statistics::directional_add(at.transpose(), B.col(1));
+    } else {
+        vf::Entry e("directional_statistics::directional_sub[expression arguments]");
+        r1 = directional_statistics::directional_sub(big.bottomRows(a.rows()), B.col(1));
+        r2 = directional_statistics::directional_sub(at.transpose(), B.col(1));
+    }
+    via_equal = via_equal && vf::bit_equal(res, r1) && vf::bit_equal(res, r2);
+    return res;
+}
+
+static VectorXd call_mean(const MatrixXd& a, const VectorXd& w, bool& via_equal) {
+    VectorXd res;
+    { vf::Entry e("directional_statistics::directional_mean"); res = directional_statistics::directional_mean(a, w); }
+    const MatrixXd big = under_junk(a), W = between_junk(w), at = a.transpose();
+    VectorXd r1, r2;
+    {
+        vf::Entry e("directional_statistics::directional_mean[expression arguments]");
+        r1 = directional_statistics::directional_mean(big.bottomRows(a.rows()), W.col(1));
+        r2 = directional_statistics::directional_mean(at.transpose(), W.col(1));
+    }
+    via_equal = via_equal && vf::bit_equal(res, r1) && vf::bit_equal(res, r2);
+    return res;
+}
+
 int main() {
     vf::Case c;
     while (vf::read_case(std::cin, c)) {
         vf::out_begin(c.id);
+        bool via_equal = true;
         if (c.kind == "add" || c.kind == "sub") {
             const bool add = c.kind == "add";
             const MatrixXd& a = c.mat("a"); const VectorXd b = c.mat("b").col(0);
             MatrixXd a_copy = a; VectorXd b_copy = b;
-            MatrixXd res;
-            if (add) { vf::Entry e("directional_statistics::directional_add"); res = directional_statistics::directional_add(a, b); }
-            else     { vf::Entry e("directional_statistics::directional_sub"); res = directional_statistics::directional_sub(a, b); }
+            MatrixXd res = call_addsub(add, a, b, via_equal);
             vf::out_mat("res", res);
             vf::out_int("inputs_unchanged", vf::bit_equal(a, a_copy) && vf::bit_equal(b, b_copy) ? 1 : 0);
             if (c.has_mat("a2")) {
-                const MatrixXd& a2 = c.mat("a2"); const VectorXd b2 = c.mat("b2").col(0);
-                MatrixXd res2;
-                if (add) { vf::Entry e("directional_statistics::directional_add"); res2 = directional_statistics::directional_add(a2, b2); }
-                else     { vf::Entry e("directional_statistics::directional_sub"); res2 = directional_statistics::directional_sub(a2, b2); }
-                vf::out_mat("res2", res2);
+                const VectorXd b2 = c.mat("b2").col(0);
+                vf::out_mat("res2", call_addsub(add, c.mat("a2"), b2, via_equal));
             }
         } else if (c.kind == "mean") {
             const MatrixXd& a = c.mat("a"); const VectorXd w = c.mat("w").col(0);
-            VectorXd res;
-            { vf::Entry e("directional_statistics::directional_mean"); res = directional_statistics::directional_mean(a, w); }
-            vf::out_mat("res", res);
+            vf::out_mat("res", call_mean(a, w, via_equal));
             for (const char* nm : {"a2", "a3"}) {
                 if (!c.has_mat(nm)) continue;
-                VectorXd r2;
-                { vf::Entry e("directional_statistics::directional_mean"); r2 = directional_statistics::directional_mean(c.mat(nm), w); }
-                vf::out_mat(std::string("res") + (nm + 1), r2);
+                vf::out_mat(std::string("res") + (nm + 1), call_mean(c.mat(nm), w, via_equal));
             }
         }
+        vf::out_int("via_equal", via_equal ? 1 : 0);
         vf::out_end();
     }
     return 0;
